@@ -11,6 +11,7 @@ EXPLANATION = (
     "_read_bytes); EOF is reported as 'no data', never fabricated; a load failure makes Memory recompute. What "
     "pickle._Unpickler / bz2 / lzma do on truncated input is trusted; a truncation that ends on a valid pickle boundary is "
     "pickle's STOP-opcode contract."
+    ' The load-failure handler cannot itself fail on optional state: optional timestamp guarded, metadata keys tolerated (C06.OPTIONAL-TIMESTAMP, C05.META-TOLERANT).'
 )
 ASSUMPTIONS = [
     "the underlying file is finite and read() eventually returns b'' at its end",
